@@ -7,6 +7,7 @@
 -/
 import BitstringModel.Model.C19
 import BitstringModel.Proofs.C19PP
+import BitstringModel.Props.C19
 
 namespace BM.C19
 open BM
@@ -71,12 +72,32 @@ theorem pp_trailing (a : PPArgs) (lay : Layout) (bpg : Nat) (hasLen : Bool)
        else some (strFormAlg a.lsb0 (ppTrailing a.lsb0 a.l (trailingLen a.l.length bpg hasLen)))) := by
   exact (pp_unfold a lay bpg hasLen ht h).2
 
-/-- … which (msb0, and at most `4 * MAX_CHARS` of them — always so for group sizes up to 1000) read back as those bits. -/
+/-- … which (at most `4 * MAX_CHARS` of them — always so for group sizes up to 1000) read back as those bits,
+    in msb0 and in lsb0. -/
 theorem pp_trailing_faithful (a : PPArgs) (lay : Layout) (bpg : Nat) (hasLen : Bool) (s : Str)
     (ht : processTokens a.t1 a.t2 = .ok (bpg, hasLen)) (h : pp a = .ok lay) (hs : lay.trailing = some s)
-    (hm : a.lsb0 = false) (hb : bpg ≤ 4 * Gen.maxChars) :
-    parseAuto s = .ok (ppTrailing false a.l (trailingLen a.l.length bpg hasLen)) := by
-  sorry
+    (hb : bpg ≤ 4 * Gen.maxChars) :
+    parseAuto s = .ok (ppTrailing a.lsb0 a.l (trailingLen a.l.length bpg hasLen)) := by
+  have htr := (pp_unfold a lay bpg hasLen ht h).2
+  rw [hs] at htr
+  split at htr
+  · exact absurd htr (by simp)
+  · simp only [Option.some.injEq] at htr
+    rw [htr, strFormAlg_eq_strForm]
+    apply parse_strForm
+    have hlen : (ppTrailing a.lsb0 a.l (trailingLen a.l.length bpg hasLen)).length
+        ≤ trailingLen a.l.length bpg hasLen := by
+      unfold ppTrailing
+      split
+      · simp only [List.length_take]; omega
+      · simp only [List.length_drop]; omega
+    have hlt : trailingLen a.l.length bpg hasLen ≤ bpg := by
+      unfold trailingLen
+      split
+      · rename_i hc
+        exact Nat.le_of_lt (Nat.mod_lt _ (Nat.pos_of_ne_zero hc.2))
+      · omega
+    omega
 
 /-! ### `pp_group_atomic`: the lines list whole groups, in order, nothing else -/
 
